@@ -21,11 +21,10 @@ type want struct {
 	// Exactly one of the following position demands applies.
 	Pos     *syntax.Position // exact position: a field of a rendered node (same file as the program)
 	Span    syntax.Node      // the position must lie inside this node's source span (kinds outside the property's list)
-	Any     bool             // position not demanded (callee frame of an arity/recursion error: no instruction has run)
 	Builtin bool             // built-in frame: file "<builtin>", line 0, col 0
 	Host    bool             // built-in with a Position method: hostPosFile:hostPosLine:hostPosCol
 
-	Def   *syntax.Position // for Any frames: the def/lambda token of the callee (tells the file)
+	Callee bool            // callee frame of an arity/recursion error (no instruction has run: the position is Funcode.Position(0))
 	FnPos *syntax.Position // Funcode.Pos of the frame's function (nil: module toplevel); evidence only
 	Role  string           // what the frame is executing, for violation keys: "call", "call via sorted", kind of the failing op
 }
@@ -35,6 +34,7 @@ type site struct {
 	expr      syntax.Expr // expression sites
 	stmt      syntax.Stmt // statement sites
 	pre, post []syntax.Stmt
+	first     syntax.Stmt // must be the first statement of the frame's function body
 	pos       *syntax.Position
 	span      syntax.Node
 	extra     []*want // frames above this one
@@ -736,6 +736,9 @@ func (g *generator) nest(ctx *lctx, block []syntax.Stmt, big bool) syntax.Stmt {
 // body assembles the statements of a non-lambda frame around the planted site.
 func (g *generator) body(ctx *lctx, st site) []syntax.Stmt {
 	var out []syntax.Stmt
+	if st.first != nil {
+		out = append(out, st.first)
+	}
 	npre := g.drawStmts()
 	if g.maxPre < npre {
 		g.maxPre = npre
